@@ -1,0 +1,1 @@
+//! Verification hook: public wrapper of the encrypted noise stream over a caller-supplied transport.
